@@ -13,7 +13,8 @@ inductive Op
   | newUniverse (attrs : List (Nat × Nat)) (ms : List VId) (L : Option WId)
   | newLaws (r : Nat)
   | newEdge (c : LCls) (a b : Option VId)
-  | newEdgeIllTyped                       -- a constructor argument that is not a Vertex
+  | rejected (e : Err)                    -- a call that raises before the library touches anything: an argument that is not a
+                                          -- Vertex (TypeError), an argument iterable that raises while it is being read (Fault)
   | newNLink (vs : List (Option VId))
   | setV1 (l : LId) (x : Option VId)
   | setV2 (l : LId) (x : Option VId)
@@ -84,7 +85,7 @@ def step (P : Prims) (F : Nat → LId → Option VId → Bool) (w : World) : Op 
     match newLink P w c [a, b] with
     | .error e => (w, .err e)
     | .ok (w', l) => (w', .link l)
-  | .newEdgeIllTyped => (w, .err .type)
+  | .rejected e => (w, .err e)
   | .newNLink vs =>
     if !(vs.all w.ovOK) then (w, .bad) else
     match newLink P w .N vs with
